@@ -175,6 +175,12 @@ _LIBRARY = {
 }
 
 
+import re as _re  # noqa: E402  (constant folding of pure functions of the standard library on strings derived from the name)
+
+_FOLDABLE = {"re.split": _re.split, "re.findall": _re.findall, "re.sub": _re.sub, "re.escape": _re.escape, "chr": chr, "ord": ord, "divmod": divmod}
+_LIBRARY.update({"re.split": "re.split", "re.findall": "re.findall", "re.sub": "re.sub", "re.escape": "re.escape"})
+
+
 class _Closure:
     def __init__(self, node: ast.Lambda, env: dict) -> None:
         self.node, self.env = node, env
@@ -785,7 +791,7 @@ class Walk:
             recv = self.expr(f.value, env, ctx, depth)
             m = f.attr
             if isinstance(recv, str) and recv != "SELF":
-                return self.str_method(recv, m, args)
+                return self.str_method(recv, m, args, kwargs)
             if recv == ("UNKSTR",):
                 return UNK
             if isinstance(recv, (list, tuple)):
@@ -873,7 +879,20 @@ class Walk:
             return cs[0]
         return None
 
-    def str_method(self, s: str, m: str, args):
+    def str_method(self, s: str, m: str, args, kwargs=None):
+        if kwargs:
+            vals = list(kwargs.values())
+            if _unk(*vals) or not all(isinstance(v, (str, int)) or v is None for v in vals):
+                return _d(s, *args, *vals)
+            if _unk(*args) or any(a == ("UNKSTR",) for a in args):
+                return _d(s, *args, *vals)
+            try:
+                r = getattr(s, m)(*args, **kwargs)
+            except ValueError:
+                raise _Abort() from None
+            except Exception:  # noqa: BLE001
+                return _d(s, *args, *vals)
+            return list(r) if isinstance(r, list) else tuple(r) if isinstance(r, tuple) else r if isinstance(r, (str, int, bool)) else _d(s, *args, *vals)
         a0 = args[0] if args else None
         if m in ("startswith", "endswith", "removeprefix", "removesuffix") and (_ismap(a0) or a0 == ("UNKSTR",)):
             self.scan = True  # the name is tested against (something built from) every listed name
@@ -1098,6 +1117,16 @@ class Walk:
             if n == "operator.contains":
                 return self.compare(ast.In(), _plain(args[1]), _plain(a0))
             return self.compare(ast.Eq() if n == "operator.eq" else ast.NotEq(), _plain(a0), _plain(args[1]))
+        if n in _FOLDABLE and allargs and not _unk(*allargs) and all(isinstance(a, (str, int)) and a != "SELF" for a in allargs):
+            try:
+                r = _FOLDABLE[n](*args, **kwargs)
+            except Exception:  # noqa: BLE001
+                return _d(*allargs)
+            if isinstance(r, (str, int, bool)):
+                return r
+            if isinstance(r, (list, tuple)) and all(isinstance(x, (str, int)) or (isinstance(x, tuple) and all(isinstance(y, str) for y in x)) for x in r):
+                return list(r) if isinstance(r, list) else tuple(r)
+            return _d(*allargs)
         # a function the unrolling does not model
         self.mixed(None, *allargs)
         return _d(*allargs)
